@@ -72,6 +72,7 @@ def run(ctx):
         "\"what the legacy engine would load\" is what the real legacy chronicler loads from the folder right before the migration",
         "legacy histories are kept free of duplicate keys: a record whose file pointer the legacy writer failed to announce gets it the way a reload would (the legacy writer's lost file pointer is not this property's subject)",
         "a damaged chunk is classified by what the real legacy load makes of it (chunk skipped / everything refused / no effect); damages that alter records undetected are skipped and counted",
+        "a read fault during the migration is a chunk file replaced, for the duration of Run(), by a symbolic link that cannot be followed (dangling or looping); the reference stays the legacy load taken before",
         "write faults are I/O errors or short writes at single file operations of the new file (FileOp hook); faults while deleting the legacy files cannot be injected (os.Remove is not hooked)",
     ]
     binary = ctx.go_build("migration")
@@ -92,7 +93,7 @@ def run(ctx):
     def add(**kw):
         sc = dict(ops=history(rng, rng.randint(3, 18)), batch=rng.choice([1, 2, 3, 8]), chunk=rng.choice([40, 60, 120, 400, 100000]),
                   pad=rng.choice([0, 10, 200]), name=rng.choice(names), verify=rng.random() < 0.5, delete_old=rng.random() < 0.6,
-                  parallel=rng.choice([1, 4]), damage="", stale="", fail_at=-1, short=False, seed=rng.randint(1, 2 ** 31))
+                  parallel=rng.choice([1, 4]), damage="", stale="", read_fault="", fail_at=-1, short=False, seed=rng.randint(1, 2 ** 31))
         sc.update(kw)
         sc["id"] = len(scs) + 1
         scs.append(sc)
@@ -117,6 +118,9 @@ def run(ctx):
                 add(fail_at=k, short=rng.random() < 0.5, verify=rng.random() < 0.4, delete_old=True, **base)
         for _ in range(60 if thorough else 10):      # damaged chunks
             add(damage=rng.choice(["truncate0", "truncate", "bitflip", "garbage"]))
+        for _ in range(40 if thorough else 8):       # a chunk that cannot be read while the migrator runs
+            add(read_fault=rng.choice(["dangling", "loop"]), verify=rng.random() < 0.5, delete_old=rng.random() < 0.7)
+        add(ops=[dict(op="new", k=k, v=k) for k in range(1, 8)], chunk=60, batch=2, read_fault="dangling", verify=True, delete_old=True)
         for _ in range(12 if thorough else 3):       # leftover target files
             add(stale=rng.choice(["whole", "torn"]))
     sf, tf, rf = [os.path.join(ctx.work, x) for x in ("scenarios.json", "trace.ndjson", "results.ndjson")]
@@ -140,13 +144,13 @@ def run(ctx):
         if res.get("skip"):
             nskip += 1
             continue
-        key = [sc["ops"], sc["chunk"], sc["batch"], sc["verify"], sc["delete_old"], sc["damage"], sc["stale"], sc["fail_at"], sc["short"]]
-        ctx.count_case(key, nontrivial=bool(sc["damage"] or sc["stale"] or sc["fail_at"] >= 0 or len(sc["ops"]) >= 4))
+        key = [sc["ops"], sc["chunk"], sc["batch"], sc["verify"], sc["delete_old"], sc["damage"], sc["stale"], sc.get("read_fault", ""), sc["fail_at"], sc["short"]]
+        ctx.count_case(key, nontrivial=bool(sc["damage"] or sc["stale"] or sc.get("read_fault") or sc["fail_at"] >= 0 or len(sc["ops"]) >= 4))
         ctx.cov["traces_validated_against_impl"] += 1
         if sc["id"] in strict_ok:
             continue
-        what = "migration (verify=%s, delete-old=%s, write fault at op %s%s, damage=%r, leftover target=%r) of history %s: trace rejected by the strict spec; %s" % (
-            sc["verify"], sc["delete_old"], sc["fail_at"], " short" if sc["short"] else "", sc["damage"], sc["stale"],
+        what = "migration (verify=%s, delete-old=%s, write fault at op %s%s, read fault=%r, damage=%r, leftover target=%r) of history %s: trace rejected by the strict spec; %s" % (
+            sc["verify"], sc["delete_old"], sc["fail_at"], " short" if sc["short"] else "", sc.get("read_fault", ""), sc["damage"], sc["stale"],
             json.dumps([[o["op"], o["k"], o["v"]] for o in sc["ops"]]), "; ".join((res.get("wrong") or ["(see trace)"])[:2]))
         if sc["id"] in asbuilt_ok:
             nknown += 1
